@@ -413,10 +413,16 @@ class Ctx:
         self.known = []
         self.notes = []
         self.vm_sample = []
+        self.impl_crashes = []
 
     def impl(self, cases, timeout=900):
         env = {"PATH": os.environ.get("PATH", ""), "HOME": self.work, "TMPDIR": self.work}
-        return run_stream(os.path.join(self.bindir, "verifh"), cases, timeout=timeout, env=env)
+        res = run_stream(os.path.join(self.bindir, "verifh"), cases, timeout=timeout, env=env)
+        # the real code dying (process crash) or panicking on a case is never acceptable, whatever the property's judge compares
+        for c, r in zip(cases, res):
+            if isinstance(r, list) and r and r[0] in ("crash", "panic") and len(self.impl_crashes) < 5:
+                self.impl_crashes.append((c, r))
+        return res
 
     def model(self, cases, timeout=900):
         res = run_stream(self.model_bin, cases, timeout=timeout, per_case_recover=False)
